@@ -39,7 +39,7 @@ c.finish(
         "translator constant maxDegree (coq/Gen/Gen_C16.v)",
     ],
     partial=[
-        "page_numbers_full (any nesting of ranges) states that the callback log of the model and spec_log have the same entries (callback, value); that the ORDER of the invocations and their multiplicity agree is proved for programs on the root range only (page_numbers_partial) - the executable futureInt model, spec_log, the Go statement of it and the real callbacks are compared as lists on every program",
+        "page_numbers_exact (any nesting of ranges): the callback log of the model is a permutation of spec_log - the ORDER of the invocations is not specified (a callback whose page number is not known yet is called later); same order is proved for programs on the root range only (page_numbers_partial). The harness compares the real callbacks with the specification as sorted lists and flags a callback that is called twice",
         "the theorems about the written tree are of the form `run prog = Ok out -> ...`: Ok is what every program gives unless it closes the root range itself (run_total): the Go panics the model represents as Err Panic are unreachable (fanout_full, for the code after fix F47; FALSE before it - fanout_refuted_before_F47 about the named pre-fix variant PageTreePre.merge_pre; the F47 witness and a sample of its family run in every tier) and running out of fuel is excluded by no_fuel_exhaustion",
     ],
 )
